@@ -267,3 +267,6 @@ fn hot_reloading_thread(
 
     log::info!("Stopping hot-reloading");
 }
+
+#[cfg(kani)]
+include!(concat!(env!("ASSETS_MANAGER_VERIF"), "/incrate/hot_reloading_mod.rs"));
